@@ -230,7 +230,9 @@ func (eval Evaluator) gadgetProductSinglePAndBitDecompLazy(levelQ int, cx ring.P
 		// the power of two decomposition is applied on top
 		// of the RNS decomposition
 		if mask == 0 {
-			eval.Decomposer.DecomposeAndSplit(levelQ, levelP, levelP+1, i, cxInvNTT, c2QP.Q, c2QP.P)
+			// This path is only taken for levelP <= 0: each RNS digit is a single prime of Q, also
+			// when the key has no P (levelP = -1, for which levelP+1 = 0 would select row 0 for every i).
+			eval.Decomposer.DecomposeAndSplit(levelQ, levelP, 1, i, cxInvNTT, c2QP.Q, c2QP.P)
 		}
 
 		for j := 0; j < BaseTwoDecompositionVectorSize[i]; j++ {
